@@ -48,7 +48,7 @@ def sizeSum (ls : List Level) : Rat := (ls.map (·.size)).sum
 
 theorem sumSizes_exact (ls : List Level) : sumSizes DCtx.exact ls = sizeSum ls := by
   unfold sumSizes sizeSum
-  simp only [exact_num, NumCtx.exact_add]
+  simp only [exact_num, NumCtx.exact_add, exact_reprD]
   have : ∀ a : Rat, ls.foldl (fun acc l => acc + l.size) a = a + (ls.map (·.size)).sum := by
     induction ls with
     | nil => simp
@@ -64,7 +64,7 @@ theorem checkTx_ok {cx : DCtx} {c : TokenCfg} {book : List Instr} {r : Req} {isB
     ∃ avail, availSide cx ck.ins r.mult isBuy = .ok avail ∧
       ((reqPrice cx ck.ins r = .ok none ∧ ck.price = none ∧ ck.amount ≤ sumSizes cx avail) ∨
        (∃ p l rest, reqPrice cx ck.ins r = .ok (some p) ∧ findAvailable cx p avail = l :: rest ∧
-          ck.price = some (cx.reprD l.price) ∧ ck.amount ≤ l.size)) := by
+          ck.price = some (cx.reprD l.price) ∧ ck.amount ≤ cx.reprD l.size)) := by
   unfold checkTx at h
   split at h
   · exact absurd h (by simp)
